@@ -349,7 +349,7 @@ def check_who_may_mutate(chk, repo):
                 elif isinstance(t, ast.Attribute) and dotted(t) in ("self.graph", "self.blackboxes") and m != "__init__":
                     n_sites += 1
                     chk.ob("C07.W.who-may-mutate", f"Circuit.{m}::rebinds {dotted(t)}", False, file=FILE, func=f"Circuit.{m}", line=n.lineno, fact={"method": m}, expect="only in __init__")
-    chk.floor("raw writer sites in class Circuit", n_sites, 10)
+    chk.floor("raw writer sites in class Circuit", n_sites, 6)
 
 
 # ---- ordering ------------------------------------------------------------
